@@ -92,4 +92,91 @@ Definition GasToRefund (availableRefund : Z) (gasConsumed : Z) (refundQuotient :
 Definition ExceedsThreshold (ThresholdA : Z) (ThresholdB : Z) (power : Z) (totalPower : Z) : bool :=
   ((zcmp (power * ThresholdB) (totalPower * ThresholdA)) >? 0).
 
-Definition kernel_names : list string := ("TokensFromShares"%string :: "SharesFromTokens"%string :: "CalculateUSDValue"%string :: "SlashFromUndelegation"%string :: "GasToRefund"%string :: "ExceedsThreshold"%string :: nil)%list.
+(* x/epochs/keeper/abci.go : the function literal passed to IterateEpochInfos in BeginBlocker (decision part) *)
+Definition epoch_tick_decision (blockHeight : Z) (blockTime : Z) (epochInfo_valid : bool) (epochInfo_StartTime : Z) (epochInfo_Duration : Z) (epochInfo_CurrentEpoch : Z) (epochInfo_CurrentEpochStartTime : Z) (epochInfo_EpochCountingStarted : bool) (epochInfo_CurrentEpochStartHeight : Z) : bool * Z * bool * Z * Z * option (Z) * option (Z) * bool :=
+  let after_epoch_end : option (Z) := None in
+  let before_epoch_start : option (Z) := None in
+  let saved := false in
+  if negb epochInfo_valid then (
+    (false, epochInfo_CurrentEpochStartHeight, epochInfo_EpochCountingStarted, epochInfo_CurrentEpoch, epochInfo_CurrentEpochStartTime, after_epoch_end, before_epoch_start, saved)
+  ) else (
+    if (blockTime <? epochInfo_StartTime) then (
+      (false, epochInfo_CurrentEpochStartHeight, epochInfo_EpochCountingStarted, epochInfo_CurrentEpoch, epochInfo_CurrentEpochStartTime, after_epoch_end, before_epoch_start, saved)
+    ) else (
+      let epochEndTime := (epochInfo_CurrentEpochStartTime + epochInfo_Duration) in
+      let isFirstTick := (negb epochInfo_EpochCountingStarted) in
+      let isTickEnding := (blockTime >? epochEndTime) in
+      let isEpochStart := (isTickEnding || isFirstTick) in
+      if (negb isEpochStart) then (
+        (false, epochInfo_CurrentEpochStartHeight, epochInfo_EpochCountingStarted, epochInfo_CurrentEpoch, epochInfo_CurrentEpochStartTime, after_epoch_end, before_epoch_start, saved)
+      ) else (
+        let epochInfo_CurrentEpochStartHeight := blockHeight in
+        if isFirstTick then (
+          let epochInfo_EpochCountingStarted := true in
+          let epochInfo_CurrentEpoch := 1 in
+          let epochInfo_CurrentEpochStartTime := epochInfo_StartTime in
+          let saved := true in
+          let before_epoch_start := (Some epochInfo_CurrentEpoch) in
+          (false, epochInfo_CurrentEpochStartHeight, epochInfo_EpochCountingStarted, epochInfo_CurrentEpoch, epochInfo_CurrentEpochStartTime, after_epoch_end, before_epoch_start, saved)
+        ) else (
+          let after_epoch_end := (Some epochInfo_CurrentEpoch) in
+          let epochInfo_CurrentEpoch := (epochInfo_CurrentEpoch + 1) in
+          let epochInfo_CurrentEpochStartTime := epochEndTime in
+          let saved := true in
+          let before_epoch_start := (Some epochInfo_CurrentEpoch) in
+          (false, epochInfo_CurrentEpochStartHeight, epochInfo_EpochCountingStarted, epochInfo_CurrentEpoch, epochInfo_CurrentEpochStartTime, after_epoch_end, before_epoch_start, saved)
+        )
+      )
+    )
+  ).
+
+(* utils/utils.go : the function literal passed to Slice in SortByPower (decision part) *)
+Definition sort_by_power_less (addr_i : string) (addr_j : string) (power_i : Z) (power_j : Z) : bool :=
+  if (power_i =? power_j) then (
+    ((bytes_cmp addr_i addr_j) <? 0)
+  ) else (
+    (power_i >? power_j)
+  ).
+
+(* x/feedistribution/keeper/allocation.go : value slice of reward in AllocateTokens *)
+Definition validator_reward (val_Power : Z) (feesCollected : Z) (communityTax : Z) (totalPreviousPower : Z) : kres (Z) :=
+  let k_t1 := (P - communityTax) in
+  if negb (dec_ok k_t1) then KPanic "Dec.Sub: Dec overflow" else
+  let k_t2 := (dec_mul_trunc feesCollected k_t1) in
+  if negb (dec_ok k_t2) then KPanic "Dec.MulDecTruncate: Dec overflow" else
+  let feeMultiplier := k_t2 in
+  let k_t3 := (dec_of_int totalPreviousPower) in
+  let k_t4 := (dec_of_int val_Power) in
+  if (k_t3 =? 0) then KPanic "Dec.QuoTruncate: division by zero" else
+  let k_t5 := (dec_quo_trunc k_t4 k_t3) in
+  if negb (dec_ok k_t5) then KPanic "Dec.QuoTruncate: Dec overflow" else
+  let powerFraction := k_t5 in
+  let k_t6 := (dec_mul_trunc feeMultiplier powerFraction) in
+  if negb (dec_ok k_t6) then KPanic "Dec.MulDecTruncate: Dec overflow" else
+  let reward := k_t6 in
+  KOk reward.
+
+(* x/feedistribution/keeper/allocation.go : value slice of rewardToSingleStaker in AllocateTokensToStakers *)
+Definition staker_reward (rewardToAllStakers : Z) (stakerPower : Z) (curTotalStakersPowers : Z) : kres (Z) :=
+  if (curTotalStakersPowers =? 0) then KPanic "Dec.QuoTruncate: division by zero" else
+  let k_t1 := (dec_quo_trunc stakerPower curTotalStakersPowers) in
+  if negb (dec_ok k_t1) then KPanic "Dec.QuoTruncate: Dec overflow" else
+  let powerFraction := k_t1 in
+  let k_t2 := (dec_mul_trunc rewardToAllStakers powerFraction) in
+  if negb (dec_ok k_t2) then KPanic "Dec.MulDecTruncate: Dec overflow" else
+  let rewardToSingleStaker := k_t2 in
+  KOk rewardToSingleStaker.
+
+(* x/operator/keeper/slash.go : value slice of newSlashProportion in SlashAssets *)
+Definition slash_proportion (parameter_Power : Z) (parameter_SlashProportion : Z) (stakingInfo_StakingAndWaitUnbonding : Z) : kres (Z) :=
+  let k_t1 := (dec_mul (dec_of_int parameter_Power) parameter_SlashProportion) in
+  if negb (dec_ok k_t1) then KPanic "Dec.Mul: Dec overflow" else
+  let slashUSDValue := k_t1 in
+  if (stakingInfo_StakingAndWaitUnbonding =? 0) then KPanic "Dec.Quo: division by zero" else
+  let k_t2 := (dec_quo slashUSDValue stakingInfo_StakingAndWaitUnbonding) in
+  if negb (dec_ok k_t2) then KPanic "Dec.Quo: Dec overflow" else
+  let newSlashProportion := k_t2 in
+  let newSlashProportion := (Z.min (dec_of_int 1) newSlashProportion) in
+  KOk newSlashProportion.
+
+Definition kernel_names : list string := ("TokensFromShares"%string :: "SharesFromTokens"%string :: "CalculateUSDValue"%string :: "SlashFromUndelegation"%string :: "GasToRefund"%string :: "ExceedsThreshold"%string :: "epoch_tick_decision"%string :: "sort_by_power_less"%string :: "validator_reward"%string :: "staker_reward"%string :: "slash_proportion"%string :: nil)%list.
